@@ -85,7 +85,8 @@ class PolyhedralTerm(Term):
         return res
 
     def __hash__(self) -> int:
-        return hash(str(self))
+        # hash the numbers, not their text: 0.0 and -0.0 are equal constants that print differently
+        return hash((tuple(sorted((var.name, coeff) for var, coeff in self.variables.items())), self.constant))
 
     def __repr__(self) -> str:
         return "<Term {0}>".format(self)
